@@ -129,23 +129,23 @@ func (p PoolStat) String() string {
 
 // Step is what happened for one command.
 type Step struct {
-	Idx        int
-	Cmd        Cmd
-	Tag        string // literal carried by the statement (empty for non-statements)
-	SQL        string
-	NoSession  bool   // the session was already gone: command not executed
-	OK         bool   // OK packet or result set
-	Err        *rawclient.Error
-	IOErr      string // transport error (proxy closed the connection, timeout)
-	Status     uint16 // server status flags of the OK/EOF packet
-	FaultArmed bool
-	FaultFired bool
-	FaultConn  ConnKey
-	ProxyClosed bool // the proxy closed the client socket during/after this command (observed as EOF)
-	Events     []fakemysql.Event // backend events logged while the command ran, in global order
-	Pools      []PoolStat        // counters after the command
-	OldPools   []PoolStat        // counters of pools of previous namespace generations (reload), after the command
-	Gen        int               // namespace generation (number of reloads so far) when the command ran
+	Idx         int
+	Cmd         Cmd
+	Tag         string // literal carried by the statement (empty for non-statements)
+	SQL         string
+	NoSession   bool // the session was already gone: command not executed
+	OK          bool // OK packet or result set
+	Err         *rawclient.Error
+	IOErr       string // transport error (proxy closed the connection, timeout)
+	Status      uint16 // server status flags of the OK/EOF packet
+	FaultArmed  bool
+	FaultFired  bool
+	FaultConn   ConnKey
+	ProxyClosed bool              // the proxy closed the client socket during/after this command (observed as EOF)
+	Events      []fakemysql.Event // backend events logged while the command ran, in global order
+	Pools       []PoolStat        // counters after the command
+	OldPools    []PoolStat        // counters of pools of previous namespace generations (reload), after the command
+	Gen         int               // namespace generation (number of reloads so far) when the command ran
 }
 
 // Trace is the result of running a case.
@@ -155,15 +155,15 @@ type Trace struct {
 	// all events of the whole run (including those after the last command), global order
 	AllEvents []fakemysql.Event
 	// Final observations (C19)
-	FinalPools     []PoolStat // all generations
-	FinalOpen      []OpenConn // backend connections still open at the end that are not health/kill connections
-	Quiesced       bool       // pools reached InUse==0 && Available==Capacity
-	StillChanging  bool       // counters were still changing when the deadline passed (inconclusive)
-	FreshOK        bool       // a fresh session could run a statement on every slice
-	FreshErr       string
-	SetupErr       string
-	HardDrops      int // sessions closed with RST: the proxy-side close cannot be observed
-	Unobserved     int // sessions closed with FIN / COM_QUIT whose proxy-side close was not seen within the deadline
+	FinalPools    []PoolStat // all generations
+	FinalOpen     []OpenConn // backend connections still open at the end that are not health/kill connections
+	Quiesced      bool       // pools reached InUse==0 && Available==Capacity
+	StillChanging bool       // counters were still changing when the deadline passed (inconclusive)
+	FreshOK       bool       // a fresh session could run a statement on every slice
+	FreshErr      string
+	SetupErr      string
+	HardDrops     int // sessions closed with RST: the proxy-side close cannot be observed
+	Unobserved    int // sessions closed with FIN / COM_QUIT whose proxy-side close was not seen within the deadline
 }
 
 // OpenConn is a backend connection still open at the end.
@@ -180,14 +180,14 @@ var caseCounter int64
 
 // cluster-wide armed fault
 type armed struct {
-	mu      sync.Mutex
-	f       *Fault
-	slice   string
-	tag     string
-	stallMs int
-	fired   bool
-	firedAt time.Time
-	conn    ConnKey
+	mu        sync.Mutex
+	f         *Fault
+	slice     string
+	tag       string
+	stallMs   int
+	fired     bool
+	firedAt   time.Time
+	conn      ConnKey
 	sessConns map[ConnKey]bool // connections that have carried a tagged statement
 }
 
@@ -759,7 +759,7 @@ func runLive(c Case, opt Options, live *Live) *Trace {
 				if tc, ok := s.c.NetConn().(*net.TCPConn); ok {
 					tc.CloseWrite()
 				}
-				if !waitEOF(s.c, 3*time.Second) {
+				if !waitEOF(s.c, 2*time.Second) {
 					tr.Unobserved++ // not observed: fall back to polling
 				}
 				s.c.Close()
@@ -855,8 +855,13 @@ func runLive(c Case, opt Options, live *Live) *Trace {
 				for attempt := 0; attempt < c.MaxCap+3 && !good; attempt++ {
 					r, err := cn.Exec(q)
 					if err != nil {
+						// the proxy closes a session whose unsharded statement met a dead backend connection
 						tr.FreshErr = "io: " + err.Error()
-						break
+						cn.Close()
+						if cn, err = dial(0); err != nil {
+							tr.FreshErr = "dial: " + err.Error()
+							break
+						}
 					} else if r.Err != nil {
 						tr.FreshErr = r.Err.Error()
 					} else {
@@ -870,7 +875,9 @@ func runLive(c Case, opt Options, live *Live) *Trace {
 				}
 			}
 			tr.FreshOK = ok
-			cn.Quit()
+			if cn != nil {
+				cn.Quit()
+			}
 		}
 	} else {
 		tr.AllEvents = cl.Events()
